@@ -41,7 +41,8 @@ class Check(PropertyCheck):
     def rule_token(self, rng):
         if getattr(self, "_exact_only", False):
             if rng.random() < 0.4:
-                return rng.choice(["spt", "fcfs", "mor", "sb:spt", "sb:fcfs"])
+                # (the DIRECT most-work-remaining rule adds up integer durations: exact at any magnitude, unlike its observer-based twin)
+                return rng.choice(["spt", "fcfs", "mor", "mwkr", "mwkr", "sb:spt", "sb:fcfs"])
             return "tb:" + ",".join(rng.choice(["spt", "fcfs", "mor"]) for _ in range(rng.randint(1, 3)))
         r = rng.random()
         if r < 0.7:
